@@ -69,6 +69,13 @@ structure Steps where
   frames : Nat := 0       -- calls of parse_vwsc_channels
   deriving Repr, DecidableEq, Inhabited
 
+/-- the frame a "same as previous" record appends: `vwsc_data[-1]` when there is one, otherwise (F10 repair) the decoded
+    initial buffer -/
+def lastOr (prev : Option Frame) (x : Unit → R Frame) : R Frame :=
+  match prev with
+  | some f => .ok f
+  | none => x ()
+
 set_option linter.unusedVariables false in
 /-- the record loop `while idx < dataSize` (dataSize = len(fdata) was checked by the caller).
     `prev` is the last element of `vwsc_data`, if any. -/
@@ -80,7 +87,7 @@ def recLoop (lay : Layout) (d : Bytes) (buf : Bytes) (idx : Nat) (prev : Option 
       if size < 2 then .error .value                                       -- F35 repair
       else if size = 2 then
         -- 'This frame is equals to the previous one!'
-        match (match prev with | some f => (.ok f : R Frame) | none => parseChannels lay buf) with   -- F10 repair
+        match lastOr prev (fun _ => parseChannels lay buf) with
         | .error e => .error e
         | .ok f =>
           match recLoop lay d buf (idx + 2) (some f) with
@@ -188,25 +195,26 @@ def parseVwscSteps (fdata : Bytes) : Steps × Nat :=
 /-- `struct.unpack(">i", fdata[i:i+4])` at an index that may have gone negative -/
 def getSI (d : Bytes) (k : Nat) (i : Int) : R Int := unpackS .be k (pySlice d i (i + k))
 
+/-- the `if dataMarker != 0x14:` block of parse_vwsc_file_data: the data block is wrapped (DIR file). Returns the index
+    after the inner size/marker words, and those two words. -/
+def skipWrapper (fdata : Bytes) (dataSize0 : Int) : R (Int × Int × Int) := do
+  if (fdata.length : Int) ≠ dataSize0 then throw .value
+  let _unknown01 ← getS .be 4 fdata 8
+  let _nmarkers ← getS .be 4 fdata 12
+  let nmarkers1 ← getS .be 4 fdata 16
+  let _lastMarker ← getS .be 4 fdata 20
+  let indx : Int := 24 + nmarkers1 * 4                 -- the markers are skipped; the count may be negative
+  let dataSize ← getSI fdata 4 indx
+  let dataMarker ← getSI fdata 4 (indx + 4)
+  pure (indx + 8, dataSize, dataMarker)
+
 /-- vwsc.parse_vwsc_file_data -/
 def parseVwscFile (fdata : Bytes) : R (List Frame) := do
   let dataSize0 ← getS .be 4 fdata 0
   let dataMarker0 ← getS .be 4 fdata 4
-  let (indx, dataSize, dataMarker) ←
-    if dataMarker0 ≠ 0x14 then do
-      -- wrapped (DIR file)
-      if (fdata.length : Int) ≠ dataSize0 then throw .value
-      let _unknown01 ← getS .be 4 fdata 8
-      let _nmarkers ← getS .be 4 fdata 12
-      let nmarkers1 ← getS .be 4 fdata 16
-      let _lastMarker ← getS .be 4 fdata 20
-      let indx : Int := 24 + nmarkers1 * 4
-      let dataSize ← getSI fdata 4 indx
-      let dataMarker ← getSI fdata 4 (indx + 4)
-      pure ((indx + 8, dataSize, dataMarker) : Int × Int × Int)
-    else pure ((8, dataSize0, dataMarker0) : Int × Int × Int)
-  if dataMarker ≠ 0x14 then throw .value
-  let indx := indx - 8
-  parseVwsc (pySlice fdata indx (indx + dataSize))
+  let t ← if dataMarker0 ≠ 0x14 then skipWrapper fdata dataSize0 else pure (8, dataSize0, dataMarker0)
+  if t.2.2 ≠ 0x14 then throw .value
+  let indx := t.1 - 8
+  parseVwsc (pySlice fdata indx (indx + t.2.1))
 
 end Drx.Vwsc
